@@ -25,6 +25,10 @@ class _Break(Exception):
     pass
 
 
+class _EndPath(Exception):
+    """the current exploration path ends here (used by loop contracts: the iteration world stops after the body)"""
+
+
 class _Continue(Exception):
     pass
 
@@ -624,8 +628,13 @@ class Engine:
             f.loops.pop()
             self.version += 1
 
+    loop_contracts = {}
+
     def s_While(self, st):
         f = self.frames[-1]
+        lc = self.loop_contracts.get((f.qualname, "while", self._loop_ordinal(f.qualname, st)))
+        if lc is not None:
+            return self._contracted_while(st, lc)
         lp = {"broken": False, "continued": False}
         f.loops.append(lp)
         try:
@@ -661,6 +670,46 @@ class Engine:
         finally:
             f.loops.pop()
             self.version += 1
+
+    def _loop_ordinal(self, qualname, st):
+        node = self.funcs.get(qualname)
+        n = 0
+        for x in ast.walk(node):
+            if isinstance(x, (ast.While, ast.For)):
+                if x is st:
+                    return n
+                n += 1
+        return -1
+
+    def _contracted_while(self, st, lc):
+        """inductive treatment of a loop: lc = {"vars": {name: sort}, "inv": fn(engine, env) -> z3 Bool, "hyps": fn(engine, env_before, env_after) -> [z3]}.
+        Generates obligations inv-init and inv-preserved (recorded in self.loop_obligations); continues after the loop with havoced variables."""
+        f = self.frames[-1]
+        inv0 = lc["inv"](self, f.env)
+        self.loop_obligations.append(("inv-init", list(self.pc) + [zbool(self.guard())], inv0, lc.get("name", "loop")))
+        idx = self.oracle.choose(self, ("loop-contract", st.lineno), [True, True])
+        # havoc
+        for name, sort in lc["vars"].items():
+            f.env[name] = SStr((self.fresh(name, "str"),)) if sort == "str" else self.fresh(name, sort)
+            f.defcond.pop(name, None)
+        self.pc.append(zbool(lc["inv"](self, f.env)))
+        g = to_bool(self.eval(st.test))
+        if idx == 0:
+            # arbitrary iteration
+            self.pc.append(zbool(g))
+            before = dict(f.env)
+            self.exec_block(st.body)
+            extra = lc["hyps"](self, before, f.env) if lc.get("hyps") else []
+            inv1 = lc["inv"](self, f.env)
+            self.loop_obligations.append(("inv-preserved", list(self.pc) + [zbool(self.guard())] + list(extra), inv1, lc.get("name", "loop")))
+            if lc.get("decreases"):
+                d0 = lc["decreases"](self, before)
+                d1 = lc["decreases"](self, f.env)
+                self.loop_obligations.append(("decreases", list(self.pc) + [zbool(self.guard())], z3.And(d1 < d0, d0 >= 0), lc.get("name", "loop")))
+            raise _EndPath()
+        self.pc.append(zbool(znot(g)))
+
+    loop_obligations = []
 
     def s_Try(self, st):
         if st.finalbody:
